@@ -280,23 +280,22 @@ def install3(R):
                                                    patterns=[T.pjoin2(T.pjoin2(d_, x_), y_)])))
 
     def _same_at(fr, q):
-        g0, g1 = fr.old.ghost, fr.st.ghost
-        return z3.And(z3.Select(g1["FS_ex"].t, q) == z3.Select(g0["FS_ex"].t, q),
-                      z3.Select(g1["FS_ct"].t, q) == z3.Select(g0["FS_ct"].t, q),
-                      z3.Select(g1["FS_ok"].t, q) == z3.Select(g0["FS_ok"].t, q))
+        return R.symbols["same_at"](fr.old.ghost, fr.st.ghost, q)
 
     def crop_files_unchanged(eng, fr, loc):
         if fr.old is None:
             raise Unsupported("needs old state")
         q = z3.Const(fresh_name("q"), V)
-        return mk_bool(z3.ForAll([q], z3.Implies(under(eng.as_V(loc), q), _same_at(fr, q))))
+        istmp = z3.Function("istmp", V, z3.BoolSort())
+        return mk_bool(z3.ForAll([q], z3.Implies(z3.And(under(eng.as_V(loc), q), z3.Not(istmp(q))), _same_at(fr, q))))
     S["crop_files_unchanged"] = crop_files_unchanged
 
     def fs_unchanged_outside(eng, fr, loc):
         if fr.old is None:
             raise Unsupported("needs old state")
         q = z3.Const(fresh_name("q"), V)
-        return mk_bool(z3.ForAll([q], z3.Implies(z3.Not(under(eng.as_V(loc), q)), _same_at(fr, q))))
+        istmp = z3.Function("istmp", V, z3.BoolSort())
+        return mk_bool(z3.ForAll([q], z3.Implies(z3.And(z3.Not(under(eng.as_V(loc), q)), z3.Not(istmp(q))), _same_at(fr, q))))
     S["fs_unchanged_outside"] = fs_unchanged_outside
 
     def crop_removed(eng, fr, loc):
